@@ -97,7 +97,7 @@ theorem bump_insertRuns (M : List Cell) (idx b o : Nat) :
           simp only [Bool.and_eq_true, beq_iff_eq] at hm
           obtain ⟨rfl, rfl⟩ := hm
           simp [bump, itemsFrom4]
-        · simp only [hm, if_false]
+        · simp only [hm]
           have hi : i' ≠ idx + 1 := by
             intro hi
             have := insertRuns_head_before M (idx + 1) b _ _ hR hi
@@ -138,7 +138,7 @@ theorem cellItems_eq (pre M : List Cell) :
         simp [Cell.newOnly] at hc; exact hc.2
       simp only [hc, if_true, List.map_cons, hold, Bool.false_eq_true, if_false, Nat.add_zero] at ih' ⊢
       rw [ih']
-      simp [item4, hget]
+      simp [item4]
     · simp only [hc, Bool.false_eq_true, if_false] at ih' ⊢
       rw [← ih']
       cases c.old <;> simp
@@ -200,6 +200,45 @@ theorem insertRuns_numOf (M : List Cell) :
   have := (mem_addIdx.mp hj).2
   simp [Cell.newOnly] at this
   simp [item4, Item4.toItem, newItem, numOf, this.2]
+
+/-! ### The code's abort condition implies `runsShort` -/
+
+theorem itemsFrom4_off_lt (b idx o : Nat) (ls : List Line) :
+    ∀ x ∈ itemsFrom4 b idx o ls, x.2.2.1 < o + ls.length := by
+  induction ls generalizing idx o with
+  | nil => simp [itemsFrom4]
+  | cons l ls ih =>
+    intro x hx
+    simp only [itemsFrom4, List.mem_cons] at hx
+    rcases hx with rfl | hx
+    · simp
+    · have := ih _ _ x hx
+      simp only [List.length_cons]; omega
+
+/-- `errlog.Abort("Can't insert more than 9999 ACL lines at once")` not taken. -/
+def runsOK (M : List Cell) : Bool := (insertRuns M 0 0).all fun r => r.2.2.length < 10000
+
+theorem runsShort_of_runsOK (M : List Cell) (h : runsOK M = true) : runsShort M := by
+  have hall : ∀ x ∈ flat4 (insertRuns M 0 0), x.2.2.1 + 1 < 10000 := by
+    intro x hx
+    simp only [flat4, List.mem_flatMap] at hx
+    obtain ⟨r, hr, hxr⟩ := hx
+    have h1 := itemsFrom4_off_lt _ _ _ _ x hxr
+    have h2 := (List.all_eq_true.mp h) r hr
+    simp only [decide_eq_true_eq] at h2
+    omega
+  rw [insertRuns_items] at hall
+  intro i hi
+  cases i with
+  | zero => simp [runOff]
+  | succ k =>
+    simp only [runOff]
+    split
+    · rename_i hn
+      have hk : k ∈ addIdx M := mem_addIdx.mpr ⟨by omega, hn⟩
+      have := hall (item4 M k) (List.mem_map.mpr ⟨k, hk, rfl⟩)
+      simpa [item4] using this
+    · omega
 
 /-! ### The add phase of the planner -/
 
@@ -292,7 +331,7 @@ theorem delFold_ops (ais : List Nat) (st : IosSt) :
     have hm : (delStep st a).moved = st.moved := by unfold delStep; split <;> rfl
     rw [hm]
     unfold delStep
-    by_cases hc : a ∈ st.moved <;> simp [hc, List.filter_cons]
+    by_cases hc : a ∈ st.moved <;> simp [hc]
 
 /-- Shape of the plan: adds / moves / suppressed moves for the new-only cells in order, then the
 deletes, bottom-up, of the device lines that no inserted line looked up. -/
